@@ -619,6 +619,22 @@ Section Replace.
   Lemma replace_all_P (ms : list macro) (s : string) :
     macros_ok ms -> P s = true -> P (replace_all ms s) = true.
   Proof. intros. unfold replace_all. apply replace_rounds_P; assumption. Qed.
+
+  (** the capped driver the line processor really calls *)
+  Lemma replace_rounds_c_P (ms : list macro) :
+    macros_ok ms -> forall n orig res, P res = true -> P (replace_rounds_c n ms orig res) = true.
+  Proof.
+    intros Hms. induction n as [|n IHn]; intros orig res Hres; cbn [replace_rounds_c]; [exact Hres|].
+    destruct (apply_all ms orig res false) as [res' c] eqn:E.
+    assert (Hres' : P res' = true).
+    { change res' with (fst (res', c)). rewrite <- E. apply apply_all_P; assumption. }
+    destruct c; [|exact Hres'].
+    destruct (within_cap res'); [apply IHn; exact Hres' | exact Hres'].
+  Qed.
+
+  Lemma replace_all_c_P (ms : list macro) (s : string) :
+    macros_ok ms -> P s = true -> P (replace_all_c ms s) = true.
+  Proof. intros. unfold replace_all_c. apply replace_rounds_c_P; assumption. Qed.
 End Replace.
 
 Lemma replace_all_nlfree (ms : list macro) (s : string) :
@@ -635,6 +651,28 @@ Lemma replace_all_one_line (ms : list macro) (s : string) :
   macros_ok ms -> one_line s = true -> one_line (replace_all ms s) = true.
 Proof.
   apply replace_all_P.
+  - intros v t Hv Ht. rewrite one_line_nlfree_app; assumption.
+  - intros a r t Har Ht Hemp. cbn [one_line] in *. destruct (is_nl a).
+    + destruct r; [|discriminate]. rewrite Hemp; reflexivity.
+    + exact Ht.
+  - intros a b. apply one_line_app_r.
+  - intros x a y H Hy. apply one_line_app_r in H. eapply one_line_app_nonempty; eauto.
+Qed.
+
+Lemma replace_all_c_nlfree (ms : list macro) (s : string) :
+  macros_ok ms -> nlfree s = true -> nlfree (replace_all_c ms s) = true.
+Proof.
+  apply replace_all_c_P.
+  - intros v t Hv Ht. rewrite nlfree_app, Hv, Ht. reflexivity.
+  - intros a r t Har Ht _. cbn [nlfree] in *. apply andb_true_iff in Har. destruct Har as [-> _]. exact Ht.
+  - intros a b. apply nlfree_app_r.
+  - intros x a y H _. apply nlfree_app_r in H. eapply nlfree_app_l; exact H.
+Qed.
+
+Lemma replace_all_c_one_line (ms : list macro) (s : string) :
+  macros_ok ms -> one_line s = true -> one_line (replace_all_c ms s) = true.
+Proof.
+  apply replace_all_c_P.
   - intros v t Hv Ht. rewrite one_line_nlfree_app; assumption.
   - intros a r t Har Ht Hemp. cbn [one_line] in *. destruct (is_nl a).
     + destruct r; [|discriminate]. rewrite Hemp; reflexivity.
@@ -777,7 +815,7 @@ Open Scope string_scope.
 
 (** the text emitted for an ordinary line *)
 Definition emit_text (ms : list macro) (out buf : string) (inc : option (string * N)) : string :=
-  let new_line := replace_all ms out in
+  let new_line := replace_all_c ms out in
   let included := match inc with Some _ => true | None => false end in
   if negb (ends_with nl new_line) && (ends_with nl buf || included) then new_line ++ nl else new_line.
 
@@ -805,14 +843,14 @@ Definition quiet_step (ms : list macro) (out : string) (p p' : pstate) : Prop :=
        parse_define e = Some (name, params, body) /\
        c_macros (p_ctx p') =
        (ms ++ [match params with
-               | None => (name, MObj (replace_all ms body))
-               | Some ps => (name, MFun ps (templatize ps (replace_all ms body)))
+               | None => (name, MObj (replace_all_c ms body))
+               | Some ps => (name, MFun ps (templatize ps (replace_all_c ms body)))
                end])%list)).
 
 Definition include_step (rec : string -> option (string * N) -> bool -> list string -> pstate -> presult)
            (fs : files) (ms : list macro) (out : string) (ps : pstate) (h : loc) (p' : pstate) : Prop :=
   exists e c iname tl ilines p2,
-    snd (directive_parts (trim (replace_all ms out))) = Some e /\
+    snd (directive_parts (trim (replace_all_c ms out))) = Some e /\
     split_once c (string_drop 1 e) = Some (iname, tl) /\
     find_file fs iname = Some ilines /\
     rec iname (Some (fst (fst h), snd (fst h))) (is_asm_file iname) ilines (inc_pre ps h iname) = POk p2 /\
@@ -854,10 +892,10 @@ Proof.
     destruct (get_macro (c_macros (p_ctx p)) name); [discriminate|].
     inversion H; subst. left. split; [reflexivity|split; [reflexivity|]].
     right; right. exists e, name, params, body. repeat split; try assumption. }
-  destruct (starts_with "#" (trim (replace_all (c_macros (p_ctx p)) out))).
+  destruct (starts_with "#" (trim (replace_all_c (c_macros (p_ctx p)) out))).
   2:{ destruct (cstate_eqb (p_state p) Active); [|quiet_same H].
       inversion H; subst. right; left. reflexivity. }
-  destruct (directive_parts (trim (replace_all (c_macros (p_ctx p)) out))) as [name arg] eqn:Edp.
+  destruct (directive_parts (trim (replace_all_c (c_macros (p_ctx p)) out))) as [name arg] eqn:Edp.
   destruct (String.eqb name "#include").
   { destruct (cstate_eqb (p_state p) Active); [|quiet_same H].
     destruct arg as [e|]; [|discriminate].
@@ -937,9 +975,9 @@ Lemma emit_text_line (ms : list macro) (out buf : string) (inc : option (string 
   (ends_nl buf = true \/ inc <> None -> ends_nl (emit_text ms out buf inc) = true).
 Proof.
   intros Hms Ho. unfold emit_text. cbv zeta.
-  pose proof (replace_all_one_line ms out Hms Ho) as Hn.
+  pose proof (replace_all_c_one_line ms out Hms Ho) as Hn.
   rewrite !ends_with_nl.
-  destruct (ends_nl (replace_all ms out)) eqn:E; cbn [negb andb].
+  destruct (ends_nl (replace_all_c ms out)) eqn:E; cbn [negb andb].
   - split; [exact Hn|auto].
   - destruct (ends_nl buf || match inc with Some _ => true | None => false end) eqn:Eb.
     + split; [|intros _; apply ends_nl_app_nl].
@@ -961,7 +999,7 @@ Proof.
   - apply Forall_app_single; [exact Hms|].
     pose proof (nlfree_directive_parts _ _ Hdp (one_line_trim _ Ho)) as He.
     destruct (nlfree_parse_define _ _ _ _ Hpd He) as [Hb Hps].
-    pose proof (replace_all_nlfree ms body Hms Hb) as Hv.
+    pose proof (replace_all_c_nlfree ms body Hms Hb) as Hv.
     destruct params as [ps|]; unfold macro_ok; cbn [snd].
     + apply nlfree_templatize; [apply Hps; reflexivity|exact Hv].
     + exact Hv.
@@ -998,11 +1036,11 @@ Qed.
 
 Lemma include_iname_nlfree ms out e c iname tl :
   macros_ok ms -> one_line out = true ->
-  snd (directive_parts (trim (replace_all ms out))) = Some e ->
+  snd (directive_parts (trim (replace_all_c ms out))) = Some e ->
   split_once c (string_drop 1 e) = Some (iname, tl) -> nlfree iname = true.
 Proof.
   intros Hms Ho Hdp Hso.
-  pose proof (one_line_trim _ (replace_all_one_line ms out Hms Ho)) as Ht.
+  pose proof (one_line_trim _ (replace_all_c_one_line ms out Hms Ho)) as Ht.
   pose proof (nlfree_directive_parts _ _ Hdp Ht) as He.
   eapply nlfree_split_once in Hso; [apply Hso|]. apply nlfree_drop. exact He.
 Qed.
@@ -1619,7 +1657,7 @@ Theorem entry_of_spliced_line_emitted : forall rec fs fname inc asm p line buf p
   (Hscan : scan_line asm buf (c_scan (p_ctx p)) = ScanOk out true sc)
   (Hstep : line_step rec fs fname inc asm p line buf = POk p')
   (Hemits : p_map p' <> p_map p)
-  (Hnoinc : forall e, snd (directive_parts (trim (replace_all (c_macros (p_ctx p)) out))) = Some e -> False),
+  (Hnoinc : forall e, snd (directive_parts (trim (replace_all_c (c_macros (p_ctx p)) out))) = Some e -> False),
   p_map p' = (fname, line, inc) :: p_map p.
 Proof.
   intros. apply line_step_cases in Hstep. destruct Hstep as [out' [ins' [sc' [Hscan' H]]]].
